@@ -308,3 +308,324 @@ Proof.
     + specialize (Hlt c Hin). lia.
     + lia.
 Qed.
+
+(* ---- preservation of SInv, one lemma per TxNotifier call ---- *)
+
+Lemma sinv_nil w : SInv w -> SInv (mkSW (sw_chain w) (sw_st w) (sw_pending w) (sw_high w) (sw_log w ++ [])).
+Proof. rewrite app_nil_r. destruct w; auto. Qed.
+
+Lemma sinv_log ch st pend high log log' pend' : SInv (mkSW ch st pend high log) -> SInv (mkSW ch st pend' high log').
+Proof. intros [A B C D E F G H I J]. constructor; auto. Qed.
+
+Lemma sinv_reg ch cu lim nid s hs hn pend high log id hnt st' r ev :
+  SInv (mkSW ch (mkS cu lim nid s hs hn) pend high log) ->
+  svalid (mkSW ch (mkS cu lim nid s hs hn) pend high log) (SReg id hnt) ->
+  sstep (mkS cu lim nid s hs hn) (SReg id hnt) = Some (st', r, ev) ->
+  SInv (mkSW ch st' pend high (log ++ ev)).
+Proof.
+  intros I V E. simpl in E, V.
+  destruct (id <? nid) eqn:Eid; [inversion E; subst; eapply sinv_log; eauto|].
+  destruct (hnt =? 0) eqn:Eh; [inversion E; subst; eapply sinv_log; eauto|].
+  destruct I as [Ichain Iuniq Ihigh Ilim Idet Inodet Itrack Iheights Inodisp Ihint].
+  simpl in *.
+  assert (Hstart : forall h t, spos ch = Some (h, t) -> max_hint hnt hn <= h).
+  { intros h t Hp. apply max_hint_le; eauto. }
+  assert (Hnone : cu <? max_hint hnt hn = true -> spos ch = None).
+  { intros Ec. destruct (spos ch) as [[h t]|] eqn:Ep; auto; exfalso.
+    specialize (Hstart h t eq_refl). pose proof (spos_le _ _ _ _ Ichain Ep). apply N.ltb_lt in Ec. lia. }
+  destruct s as [s0|].
+  - destruct (ss_rescan s0) eqn:Er; simpl in E.
+    + destruct (cu <? max_hint hnt hn) eqn:Ec; inversion E; subst; clear E;
+        (constructor; simpl; auto; slv; prep; try use_inv; try hts).
+      all: try (destruct (Idet s0 h t eq_refl H0); congruence).
+      all: try (apply in_app_iff in H1; destruct H1 as [H1|[<-|[]]]; simpl; eauto).
+    + inversion E; subst; clear E; (constructor; simpl; auto; slv; prep; try use_inv; try hts).
+      all: try (destruct (Idet s0 h t eq_refl H0); congruence).
+      all: try (apply in_app_iff in H1; destruct H1 as [H1|[<-|[]]]; simpl; eauto).
+    + destruct (ss_det s0) as [d|] eqn:Ed.
+      * destruct d as [dh dt]. unfold sdispatch1 in E. simpl in E. inversion E; subst; clear E.
+        (constructor; simpl; auto; slv; inv_some; prep; try use_inv; try hts).
+        all: try (destruct (Idet s0 _ _ eq_refl Ed); split; auto; fail).
+        all: try (destruct (cu <? h + lim); prep; eauto).
+        all: try (apply In_add; eauto).
+        all: try (destruct H as [->|H]; eauto; try hts).
+        destruct (cu <? dh + lim); prep; [destruct H as [->|H]|]; eauto; try hts; try exs.
+      * inversion E; subst; clear E.
+        (constructor; simpl; auto; slv; inv_some; prep; try use_inv; try hts).
+        all: try (apply in_app_iff in H1; destruct H1 as [H1|[<-|[]]]; simpl; eauto).
+  - simpl in E. destruct (cu <? max_hint hnt hn) eqn:Ec; inversion E; subst; clear E;
+      (constructor; simpl; auto; slv; inv_some; prep; try use_inv; try hts).
+    all: try (destruct H1 as [<-|[]]; auto).
+Qed.
+
+Lemma sinv_cancel ch cu lim nid s hs hn pend high log id st' r ev :
+  SInv (mkSW ch (mkS cu lim nid s hs hn) pend high log) ->
+  sstep (mkS cu lim nid s hs hn) (SCancel id) = Some (st', r, ev) ->
+  SInv (mkSW ch st' pend high (log ++ ev)).
+Proof.
+  intros I E. simpl in E. destruct s as [s0|]; inversion E; subst; clear E; [|eapply sinv_log; eauto].
+  destruct I as [Ichain Iuniq Ihigh Ilim Idet Inodet Itrack Iheights Inodisp Ihint].
+  simpl in *.
+  constructor; simpl; auto; slv; inv_some; prep; try use_inv; try hts; try exs.
+Qed.
+
+Lemma existsb_flag cu lim h t (l : list sntfn) :
+  l <> [] -> (forall c, In c l -> s_disp c = false) -> cu < h + lim ->
+  existsb (fun c => snd (sdispatch1 cu lim (h, t) c)) l = true.
+Proof.
+  intros Hne Hd Hlt. destruct l as [|c l]; [congruence|]. simpl.
+  unfold sdispatch1 at 1. rewrite (Hd c (or_introl eq_refl)). simpl.
+  apply N.ltb_lt in Hlt. rewrite Hlt. reflexivity.
+Qed.
+
+Lemma sinv_upd ch cu lim nid s hs hn pend high log r0 st' r ev :
+  SInv (mkSW ch (mkS cu lim nid s hs hn) pend high log) ->
+  svalid (mkSW ch (mkS cu lim nid s hs hn) pend high log) (SUpd r0) ->
+  sstep (mkS cu lim nid s hs hn) (SUpd r0) = Some (st', r, ev) ->
+  SInv (mkSW ch st' pend high (log ++ ev)).
+Proof.
+  intros I V E. simpl in E, V.
+  destruct s as [s0|]; [|inversion E; subst; eapply sinv_log; eauto].
+  destruct (ss_det s0) as [d|] eqn:Ed; [inversion E; subst; eapply sinv_log; eauto|].
+  destruct I as [Ichain Iuniq Ihigh Ilim Idet Inodet Itrack Iheights Inodisp Ihint].
+  simpl in *.
+  destruct r0 as [[h t]|].
+  - destruct (cu <? h) eqn:Ec.
+    + assert ((h <=? cu) = false) as Hle by (apply N.leb_gt; apply N.ltb_lt in Ec; lia).
+      rewrite Hle in V. inversion E; subst; clear E.
+      constructor; simpl; auto; slv; inv_some; prep; try use_inv; try hts; try exs.
+    + assert ((h <=? cu) = true) as Hle by (apply N.leb_le; apply N.ltb_ge in Ec; lia).
+      rewrite Hle in V. destruct V as [Vp [s1 [Hs1 Hne]]].
+      unfold sdispatch_all in E. inversion E; subst; clear E. inv_some.
+      apply N.leb_le in Hle.
+      assert (Hex : cu < h + lim -> existsb (fun c => snd (sdispatch1 cu lim (h, t) c)) (ss_ntfns s1) = true).
+      { intros. apply existsb_flag; auto. intros. eapply Inodisp; eauto. }
+      constructor; simpl; auto; slv; inv_some; prep; try use_inv.
+      all: try (rewrite Hex by lia; apply In_add; auto).
+      * auto.
+      * destruct (existsb _ _); prep; [destruct H as [->|H]|]; try exs; try hts.
+      * rewrite Vp in H0. inversion H0; subst. lia.
+  - inversion E; subst; clear E.
+    constructor; simpl; auto; slv; inv_some; prep; try use_inv; try hts; try exs.
+Qed.
+
+Lemma sinv_notify ch cu lim nid s hs hn pend high log st' r ev :
+  SInv (mkSW ch (mkS cu lim nid s hs hn) pend high log) ->
+  sstep (mkS cu lim nid s hs hn) SNotify = Some (st', r, ev) ->
+  SInv (mkSW ch st' false high (log ++ ev)).
+Proof.
+  intros I E. simpl in E.
+  destruct (mem cu hs) eqn:Em; [|inversion E; subst; eapply sinv_log; eauto].
+  destruct s as [s0|]; [|discriminate].
+  destruct (ss_det s0) as [[dh dt]|] eqn:Ed; [|inversion E; subst; eapply sinv_log; eauto].
+  unfold sdispatch_all in E. inversion E; subst; clear E.
+  destruct I as [Ichain Iuniq Ihigh Ilim Idet Inodet Itrack Iheights Inodisp Ihint].
+  simpl in *.
+  constructor; simpl; auto; slv; inv_some; prep; try use_inv; try hts; try exs.
+  all: try (destruct (Idet s0 _ _ eq_refl Ed); split; auto; fail).
+  - destruct (existsb _ _); [apply In_add; right|]; eapply Itrack; eauto.
+  - destruct (existsb _ _); prep; [destruct H as [->|H]|]; try exs; try hts; try exs.
+Qed.
+
+Lemma spos_cons_none h ch : spos ((h, None) :: ch) = spos ch.
+Proof. reflexivity. Qed.
+
+Lemma sinv_connect ch cu lim nid s hs hn pend high log height sp st' r ev :
+  SInv (mkSW ch (mkS cu lim nid s hs hn) pend high log) ->
+  svalid (mkSW ch (mkS cu lim nid s hs hn) pend high log) (SConnect height sp) ->
+  sstep (mkS cu lim nid s hs hn) (SConnect height sp) = Some (st', r, ev) ->
+  SInv (mkSW ((height, sp) :: ch) st' true (N.max height high) (log ++ ev)).
+Proof.
+  intros I V E. simpl in E, V. destruct V as [Vp [Vh [Vu Vhint]]]. subst height pend.
+  rewrite N.eqb_refl in E. simpl in E.
+  destruct I as [Ichain Iuniq Ihigh Ilim Idet Inodet Itrack Iheights Inodisp Ihint].
+  simpl in *.
+  assert (Hck : chain_ok (cu + 1) ((cu + 1, sp) :: ch)).
+  { simpl. split; auto. split; [lia|]. replace (cu + 1 - 1) with cu by lia. auto. }
+  assert (Hnh : ~ In (cu + 1) hs).
+  { intros Hin. destruct (Iheights _ Hin) as [s1 [t [Hs Hd]]].
+    destruct (Idet s1 _ _ Hs Hd) as [Hp _]. pose proof (spos_le _ _ _ _ Ichain Hp). lia. }
+  destruct s as [s0|]; [destruct sp as [tx|]|].
+  - (* watched outpoint spent at tip *)
+    assert (Hdn : ss_det s0 = None).
+    { destruct (ss_det s0) as [[h t]|] eqn:Ed; auto. destruct (Idet s0 _ _ eq_refl Ed) as [Hp _].
+      rewrite Vu in Hp; congruence. }
+    assert (Hempty : forall x, In x hs -> False).
+    { intros x Hx. destruct (Iheights x Hx) as [s1 [t [Hs Hd]]]. inv_some. congruence. }
+    unfold supd_hint in E. simpl in E.
+    assert (mem (cu + 1) (add (cu + 1) hs) = true) as Hm by (apply mem_In, In_add; auto).
+    rewrite Hm in E. simpl in E.
+    assert (mem (cu + 1 - lim) (add (cu + 1) hs) = false) as Hm2.
+    { apply mem_false. intros Hin. apply In_add in Hin. destruct Hin as [Hin|Hin]; [lia|eauto]. }
+    rewrite Hm2, andb_false_r in E. inversion E; subst; clear E.
+    constructor; simpl; auto; slv; inv_some; prep; try use_inv; try exs.
+    all: try (apply In_add; auto; fail).
+    all: try (destruct H as [->|H]; [exs|exfalso; eauto]).
+  - (* watched, block without a spend *)
+    unfold supd_hint in E. simpl in E.
+    assert (mem (cu + 1) hs = false) as Hm by (apply mem_false; auto). rewrite Hm, orb_false_r in E.
+    destruct ((lim <=? cu + 1) && mem (cu + 1 - lim) hs) eqn:Emat; inversion E; subst; clear E.
+    + (* pruned *)
+      apply andb_true_iff in Emat. destruct Emat as [_ Hin]. apply mem_In in Hin.
+      destruct (Iheights _ Hin) as [s1 [t [Hs Hd]]]. inv_some.
+      constructor; simpl; auto; slv; inv_some; prep; try use_inv.
+      * destruct (Iheights _ H0) as [s2 [t2 [Hs2 Hd2]]]. inv_some. congruence.
+      * destruct (Idet s1 _ _ eq_refl Hd) as [Hp _]. rewrite Hp in H0. inversion H0; subst.
+        unfold unspent in H. simpl in H. rewrite Hd, andb_false_r in H. eauto.
+    + constructor; simpl; auto; slv; inv_some; prep; try use_inv; try hts; try exs.
+      * eapply Itrack; eauto. lia.
+      * match type of H with (if ?b then _ else _) = _ => destruct b eqn:Eu end; inv_some; eauto.
+        apply andb_true_iff in Eu. destruct Eu as [Er Edn].
+        destruct (ss_det s0) eqn:Ed; [discriminate|].
+        destruct (ss_rescan s0) eqn:Ers; try discriminate.
+        rewrite (Inodet s0 eq_refl Ed Ers) in H0. discriminate.
+  - (* nobody watches *)
+    unfold supd_hint in E. simpl in E.
+    assert (mem (cu + 1) hs = false) as Hm by (apply mem_false; auto). rewrite Hm in E.
+    assert (hs = []) as ->.
+    { destruct hs as [|x hs]; auto. destruct (Iheights x (or_introl eq_refl)) as [s1 [t [Hs _]]]. discriminate. }
+    simpl in E. rewrite andb_false_r in E. inversion E; subst; clear E.
+    constructor; simpl; auto; slv; inv_some; prep; try use_inv; try tauto.
+    destruct sp as [tx|]; simpl in *; inv_some; eauto.
+    eapply Vhint; eauto. congruence.
+Qed.
+
+Lemma sinv_disconnect ch cu lim nid s hs hn pend high log height st' r ev :
+  SInv (mkSW ch (mkS cu lim nid s hs hn) pend high log) ->
+  svalid (mkSW ch (mkS cu lim nid s hs hn) pend high log) (SDisconnect height) ->
+  sstep (mkS cu lim nid s hs hn) (SDisconnect height) = Some (st', r, ev) ->
+  SInv (mkSW (tl ch) st' pend high (log ++ ev)).
+Proof.
+  intros I V E. simpl in E, V. destruct V as [Vp [Vh [Vne Vlim]]]. subst height pend.
+  rewrite N.eqb_refl in E. simpl in E.
+  destruct I as [Ichain Iuniq Ihigh Ilim Idet Inodet Itrack Iheights Inodisp Ihint].
+  simpl in *.
+  destruct ch as [|[h0 sp0] rch]; [congruence|]. simpl in Ichain, Iuniq |- *.
+  destruct Ichain as [-> [Hpos Hrest]]. destruct Iuniq as [Hu Huniq].
+  assert (Hbelow : forall h t, spos rch = Some (h, t) -> h <= cu - 1).
+  { intros h t Hp. eapply spos_le; eauto. }
+  unfold supd_hint in E.
+  destruct (mem cu hs) eqn:Em.
+  - apply mem_In in Em. destruct (Iheights _ Em) as [s1 [t1 [Hs Hd]]]. subst s.
+    destruct (Idet s1 _ _ eq_refl Hd) as [Hp Hr].
+    assert (sp0 = Some t1) as ->.
+    { destruct sp0 as [t0|]; simpl in Hp; [congruence|]. specialize (Hbelow _ _ Hp). lia. }
+    assert (Hn : spos rch = None) by (apply Hu; congruence).
+    rewrite orb_true_r in E. unfold sreorg_all in E. inversion E; subst; clear E.
+    constructor; simpl; auto; slv; inv_some; prep; try use_inv; try lia.
+    + destruct (Iheights _ H0) as [s2 [t2 [Hs2 Hd2]]]. inv_some. congruence.
+    + apply in_map_iff in H1. destruct H1 as [c0 [<- _]]. apply sreorg1_disp.
+  - rewrite orb_false_r in E. inversion E; subst; clear E.
+    assert (Hnd : forall s0 h t, s = Some s0 -> ss_det s0 = Some (h, t) -> sp0 = None).
+    { intros s0 h t Hs Hd. destruct sp0 as [t0|]; auto. exfalso.
+      destruct (Idet s0 _ _ Hs Hd) as [Hp _]. simpl in Hp. inversion Hp; subst.
+      apply mem_false in Em. apply Em. eapply Itrack; eauto. }
+    constructor; simpl; auto; slv; inv_some; prep; try use_inv; try lia.
+    + rewrite (Hnd _ _ _ H H0) in *. eapply Idet; eauto.
+    + destruct sp0 as [t0|]; [|eapply Inodet; eauto]. apply Hu. congruence.
+    + match type of H with (if ?b then _ else _) = _ => destruct b eqn:Eu end; inv_some.
+      * unfold unspent in Eu. destruct s as [s0|]; [|discriminate].
+        apply andb_true_iff in Eu. destruct Eu as [Er Edn].
+        destruct (ss_det s0) eqn:Ed; [discriminate|].
+        destruct (ss_rescan s0) eqn:Ers; try discriminate.
+        pose proof (Inodet s0 eq_refl Ed Ers) as Hpn.
+        destruct sp0; simpl in Hpn; congruence.
+      * destruct sp0 as [t0|]; [rewrite Hu in H0; congruence|eauto].
+Qed.
+
+
+Lemma sconnect_res cu lim nid s hs hn sp st' r ev :
+  sstep (mkS cu lim nid s hs hn) (SConnect (cu + 1) sp) = Some (st', r, ev) -> r = ROk None.
+Proof.
+  simpl. rewrite N.eqb_refl. simpl.
+  destruct s as [s0|]; destruct sp; simpl;
+    repeat match goal with |- context [if ?b then _ else _] => destruct b end;
+    intros E; inversion E; auto.
+Qed.
+
+Lemma sdisconnect_res cu lim nid s hs hn st' r ev :
+  sstep (mkS cu lim nid s hs hn) (SDisconnect cu) = Some (st', r, ev) -> r = ROk None.
+Proof.
+  simpl. rewrite N.eqb_refl. simpl.
+  destruct s as [s0|]; simpl;
+    repeat match goal with |- context [if ?b then _ else _] => destruct b end;
+    intros E; inversion E; auto.
+Qed.
+
+Lemma sinv_step w o w' : SInv w -> svalid w o -> swstep w o = Some w' -> SInv w'.
+Proof.
+  intros I V S. unfold swstep in S.
+  destruct (sstep (sw_st w) o) as [[[st' r] ev]|] eqn:E; [|discriminate].
+  inversion S; subst w'; clear S.
+  destruct w as [ch st pend high log]. destruct st as [cu lim nid s hs hn]. simpl in *.
+  destruct o as [id hnt|id|r0|height sp| |height].
+  - eapply sinv_reg; eauto.
+  - eapply sinv_cancel; eauto.
+  - eapply sinv_upd; eauto.
+  - pose proof (sinv_connect _ _ _ _ _ _ _ _ _ _ _ _ _ _ _ I V E) as H.
+    simpl in V. destruct V as [_ [Vh _]]. subst height.
+    rewrite (sconnect_res _ _ _ _ _ _ _ _ _ _ E). simpl. exact H.
+  - simpl in V. subst pend. eapply sinv_notify; eauto.
+  - pose proof (sinv_disconnect _ _ _ _ _ _ _ _ _ _ _ _ _ _ I V E) as H.
+    simpl in V. destruct V as [_ [Vh _]]. subst height.
+    rewrite (sdisconnect_res _ _ _ _ _ _ _ _ _ E). simpl. exact H.
+Qed.
+
+Lemma sinv_init ch start lim h0 : sstart_ok ch start lim h0 -> SInv (sinit ch start lim h0).
+Proof.
+  intros [Hc [Hu [Hl Hh]]]. constructor; simpl; auto; try discriminate; try lia.
+  all: try (intros x []; fail).
+  all: intros; eapply Hh; eauto.
+Qed.
+
+Lemma sinv_reach w0 w : SInv w0 -> sreach w0 w -> SInv w.
+Proof. intros I R. induction R; auto. eapply sinv_step; eauto. Qed.
+
+Lemma spend_hint_safe ch start lim h0 w :
+  sstart_ok ch start lim h0 -> sreach (sinit ch start lim h0) w ->
+  forall x h t, shint (sw_st w) = Some x -> spos (sw_chain w) = Some (h, t) -> x <= h.
+Proof. intros H R. apply (si_hint _ (sinv_reach _ _ (sinv_init _ _ _ _ H) R)). Qed.
+
+Lemma spend_details_on_chain ch start lim h0 w :
+  sstart_ok ch start lim h0 -> sreach (sinit ch start lim h0) w ->
+  forall s, sset (sw_st w) = Some s ->
+    (forall h t, ss_det s = Some (h, t) -> spos (sw_chain w) = Some (h, t)) /\
+    (ss_det s = None -> ss_rescan s = RComplete -> spos (sw_chain w) = None) /\
+    (ss_det s = None -> forall c, In c (ss_ntfns s) -> s_disp c = false).
+Proof.
+  intros H R s Hs. pose proof (sinv_reach _ _ (sinv_init _ _ _ _ H) R) as I.
+  split; [|split].
+  - intros h t Hd. apply (si_det _ I s h t Hs Hd).
+  - intros Hd Hr. apply (si_nodet _ I s Hs Hd Hr).
+  - intros Hd c Hc. apply (si_nodisp _ I s c Hs Hd Hc).
+Qed.
+
+(* ---- refutation witnesses (finding C14-F1), by computation ---- *)
+
+Lemma spend_cancel_refuted :
+  exists ops w,
+    sstart_ok [(3, None); (2, Some 0); (1, None)] 3 144 None /\
+    swrun (sinit [(3, None); (2, Some 0); (1, None)] 3 144 None) ops = Some w /\
+    slstate 2 (sw_log w) = Some (Some (2, 0)) /\ spos (sw_chain w) = None.
+Proof.
+  eexists [SReg 1 1; SCancel 1; SUpd (Some (2, 0)); SDisconnect 3; SDisconnect 2;
+           SConnect 2 None; SNotify; SConnect 3 None; SNotify; SReg 2 1].
+  eexists. split; [|split; [vm_compute; reflexivity|split; vm_compute; reflexivity]].
+  unfold sstart_ok. simpl. repeat split; try lia; try discriminate; auto.
+  all: try (intros; discriminate). all: try (intros; lia).
+  all: try (intros H; exfalso; apply H; reflexivity).
+Qed.
+
+Lemma conf_cancel_refuted :
+  exists ops w,
+    cstart_ok [(3, (3, false)); (2, (2, true)); (1, (1, false))] 3 144 None /\
+    cwrun (cinit [(3, (3, false)); (2, (2, true)); (1, (1, false))] 3 144 None) ops = Some w /\
+    clstate 2 (cw_log w) = Some (Some (2, 2)) /\ cpos (cw_chain w) = None.
+Proof.
+  eexists [CReg 1 1 1; CCancel 1; CUpd (Some (2, 2)); CDisconnect 3; CDisconnect 2;
+           CConnect 2 4 false; CNotify; CConnect 3 5 false; CNotify; CReg 2 1 1].
+  eexists. split; [|split; [vm_compute; reflexivity|split; vm_compute; reflexivity]].
+  unfold cstart_ok. simpl. repeat split; try lia; try discriminate; auto.
+  all: try (intros; discriminate). all: try (intros; lia).
+  all: try (intros H; exfalso; apply H; reflexivity).
+Qed.
